@@ -2276,3 +2276,7 @@ generate_opcodes! {
     ///   - binding_index: `IndexOperand`
     DefEvalVar { binding_index: IndexOperand },
 }
+
+#[cfg(kani)]
+#[path = "/verif/kani/engine/opcode_mod.rs"]
+mod verif_kani;
